@@ -109,70 +109,235 @@ theorem squeeze_congr {α : Type} {a b : Arr α} (K : List Bool) (h : Arr.Equiv 
 
 /-! ### block definitions with step -1 -/
 
-/-- the loop over the axes of a reversed block ends without `ValueError` only at an axis without overlap -/
-theorem hitsR_false : ∀ (ts : List NSlice) (arr : List (Int × Int)) (rv : List Bool),
-    ts.length = arr.length → rv.length = arr.length → rv.any id = true → hitsR ts arr rv = false →
-    overlaps ts arr = none
-  | [], [], [], _, _, h, _ => by simp at h
-  | t :: ts, b :: bs, r :: rs, h1, h2, h3, h4 => by
-    unfold hitsR at h4
-    unfold overlaps
+/-- the repaired `_find_slice_overlap` for a backwards definition: the child slice is normal for the block, selects as many
+    indices as the forward block-relative slice, and its `j`-th index is the mirror image `len - 1 - r_j` -/
+theorem flipSlice_spec {L : Int} {c p : NSlice} (hc : c.Normal L) {k0 k1 : Int} (hp1 : p.start = k0)
+    (hp2 : p.stop = some k1) (hcnt : (c.count : Int) = k1 - k0) :
+    (flipSlice L c p).Normal L ∧ (flipSlice L c p).count = c.count ∧
+    ∀ j : Int, (flipSlice L c p).start + j * (flipSlice L c p).step = L - 1 - (c.start + j * c.step) := by
+  have hm := Normal.count_pos hc
+  have hlast := Normal.last_range hc
+  rw [Normal.last_eq hc] at hlast
+  have h0 : 0 ≤ c.start ∧ c.start < L := ⟨hc.1, hc.2.1⟩
+  have hstep : c.step ≠ 0 := by
+    obtain ⟨_, _, (⟨hs, _⟩ | ⟨hs, _⟩)⟩ := hc <;> omega
+  generalize hM : (c.count : Int) * c.step = M at *
+  have hlast' : 0 ≤ c.start + (M - c.step) ∧ c.start + (M - c.step) < L := by
+    have e : ((c.count : Int) - 1) * c.step = M - c.step := by rw [← hM]; ring
+    rw [e] at hlast; exact hlast
+  have hE : (p.stop.getD 0 - p.start) * (-c.step) = -M := by
+    rw [hp1, hp2, Option.getD_some, ← hcnt, ← hM]; ring
+  refine ⟨?_, ?_, ?_⟩
+  · -- normal
+    unfold flipSlice
+    simp only [hE]
+    by_cases hs : 0 < c.step
+    · have hMs : c.step ≤ M := by
+        have : 0 ≤ ((c.count : Int) - 1) * c.step := Int.mul_nonneg (by omega) (by omega)
+        have e : ((c.count : Int) - 1) * c.step = M - c.step := by rw [← hM]; ring
+        omega
+      have hneg : ¬ (-c.step > 0) := by omega
+      simp only [hneg, if_false]
+      refine ⟨by simp; omega, by simp; omega, Or.inr ⟨by simp; omega, ?_⟩⟩
+      by_cases he : L - 1 - c.start + -M < 0
+      · simp [he]
+      · right
+        simp only [he, if_false]
+        exact ⟨_, rfl, by omega, by simp; omega⟩
+    · have hs' : c.step < 0 := by omega
+      have hMs : M ≤ c.step := by
+        have : 0 ≤ ((c.count : Int) - 1) * (-c.step) := Int.mul_nonneg (by omega) (by omega)
+        have e : ((c.count : Int) - 1) * (-c.step) = -(M - c.step) := by rw [← hM]; ring
+        omega
+      have hpos : -c.step > 0 := by omega
+      simp only [hpos, if_true]
+      refine ⟨by simp; omega, by simp; omega, Or.inl ⟨by simp; omega, _, rfl, ?_, ?_⟩⟩
+      · simp only [lt_min_iff]; constructor <;> omega
+      · exact min_le_right _ _
+  · -- count
+    unfold flipSlice
+    simp only [hE]
+    by_cases hs : 0 < c.step
+    · have hMs : c.step ≤ M := by
+        have : 0 ≤ ((c.count : Int) - 1) * c.step := Int.mul_nonneg (by omega) (by omega)
+        have e : ((c.count : Int) - 1) * c.step = M - c.step := by rw [← hM]; ring
+        omega
+      have hneg : ¬ (-c.step > 0) := by omega
+      simp only [hneg, if_false]
+      rw [count_neg_step (by omega : -c.step < 0)]
+      have e1 : ((c.count : Int) - 1) * (- -c.step) = M - c.step := by rw [← hM]; ring
+      have e2 : (c.count : Int) * (- -c.step) = M := by rw [← hM]; ring
+      by_cases he : L - 1 - c.start + -M < 0
+      · simp only [he, if_true, Option.getD_none]
+        apply cnt_unique (by omega)
+        · rw [e1]; omega
+        · rw [e2]; omega
+      · simp only [he, if_false, Option.getD_some]
+        apply cnt_unique (by omega)
+        · rw [e1]; omega
+        · rw [e2]; omega
+    · have hs' : c.step < 0 := by omega
+      have hMs : M ≤ c.step := by
+        have : 0 ≤ ((c.count : Int) - 1) * (-c.step) := Int.mul_nonneg (by omega) (by omega)
+        have e : ((c.count : Int) - 1) * (-c.step) = -(M - c.step) := by rw [← hM]; ring
+        omega
+      have hpos : -c.step > 0 := by omega
+      simp only [hpos, if_true]
+      rw [count_pos_step (by omega : 0 < -c.step)]
+      have e1 : ((c.count : Int) - 1) * (-c.step) = -(M - c.step) := by rw [← hM]; ring
+      have e2 : (c.count : Int) * (-c.step) = -M := by rw [← hM]; ring
+      apply cnt_unique (by omega)
+      · rw [e1]
+        rcases min_cases (L - 1 - c.start + -M) L with ⟨h, _⟩ | ⟨h, _⟩ <;> rw [h] <;> omega
+      · rw [e2]
+        have := min_le_left (L - 1 - c.start + -M) L
+        omega
+  · intro j
+    simp only [flipSlice]
+    ring
+
+theorem overlapsR_spec : ∀ (ts : List NSlice) (arr : List (Int × Int)) (rv : List Bool), ts.length = arr.length →
+    rv.length = arr.length →
+    match overlapsR ts arr rv with
+    | none => overlaps ts arr = none
+    | some (cs, ps) => ∃ cs0, overlaps ts arr = some (cs0, ps) ∧ cs.length = arr.length ∧
+        ∀ i, i < arr.length → sliceAt cs i =
+          if rv.getD i false then flipSlice ((arr.getD i (0, 0)).2 - (arr.getD i (0, 0)).1) (sliceAt cs0 i) (sliceAt ps i)
+          else sliceAt cs0 i
+  | [], [], [], _, _ => by simp [overlapsR, overlaps]
+  | t :: ts, b :: bs, r :: rs, h1, h2 => by
+    have ih := overlapsR_spec ts bs rs (by simpa using h1) (by simpa using h2)
+    unfold overlapsR overlaps
     cases ho : overlap t b.1 b.2 with
     | none => rfl
     | some pc =>
       obtain ⟨c, p⟩ := pc
-      rw [ho] at h4
-      simp only [Bool.or_eq_false_iff] at h4
-      have h3' : rs.any id = true := by
-        simp only [List.any_cons, id, h4.1, Bool.false_or] at h3
-        exact h3
-      rw [hitsR_false ts bs rs (by simpa using h1) (by simpa using h2) h3' h4.2]
-  | [], _ :: _, _, h, _, _, _ => by simp at h
-  | _ :: _, [], _, h, _, _, _ => by simp at h
-  | [], [], _ :: _, _, h, _, _ => by simp at h
-  | _ :: _, _ :: _, [], _, h, _, _ => by simp at h
+      cases hos : overlapsR ts bs rs with
+      | none =>
+        rw [hos] at ih
+        simp only [ih]
+      | some cp =>
+        obtain ⟨cs, ps⟩ := cp
+        rw [hos] at ih
+        obtain ⟨cs0, e1, e2, e3⟩ := ih
+        simp only [e1]
+        refine ⟨c :: cs0, rfl, by simp [e2], ?_⟩
+        intro i hi
+        cases i with
+        | zero => simp [sliceAt]
+        | succ i =>
+          have := e3 i (by simpa using hi)
+          simpa [sliceAt] using this
+  | [], _ :: _, _, h, _ => by simp at h
+  | _ :: _, [], _, h, _ => by simp at h
+  | [], [], _ :: _, _, h => by simp at h
+  | _ :: _, _ :: _, [], _, h => by simp at h
 
-/-- conversely: a subscript that selects a pixel of a block with a reversed axis is refused -/
-theorem hitsR_of_inBox : ∀ (sh : List Nat) (ts : List NSlice) (arr : List (Int × Int)) (rv : List Bool) (csh : List Nat),
-    NormalSub sh ts → boxOK sh arr csh = true → rv.length = arr.length → rv.any id = true →
-    ∀ idx : Idx, InR (ts.map NSlice.count) idx → inBox arr (selIdx ts idx) = true → hitsR ts arr rv = true
-  | [], [], [], [], [], _, _, _, h, _, _, _ => by simp at h
-  | n :: sh, t :: ts, b :: arr, r :: rv, c :: csh, hts, hbox, hl, hany, idx, hidx, hin => by
-    simp only [NormalSub, allSlicesNormal, Bool.and_eq_true, decide_eq_true_eq] at hts
-    simp only [boxOK, Bool.and_eq_true, decide_eq_true_eq] at hbox
-    have hin0 := (inBox_iff _ _).1 hin 0 (by simp)
-    simp only [List.getD_cons_zero, selIdx, sliceAt_cons_zero] at hin0
-    have hk := hidx 0 (by simp)
-    simp only [List.map_cons, dimAt_cons_zero] at hk
-    have hp := overlap_point hts.1 hbox.1.1 hbox.1.2.1 hbox.1.2.2.1
-    unfold hitsR
-    cases ho : overlap t b.1 b.2 with
-    | none =>
-      rw [ho] at hp
-      exact absurd hin0 (hp (idx 0) hk.1 hk.2)
-    | some pc =>
-      simp only
-      cases r with
-      | true => rfl
-      | false =>
-        simp only [Bool.false_or]
-        have hany' : rv.any id = true := by simpa using hany
-        apply hitsR_of_inBox sh ts arr rv csh hts.2 hbox.2 (by simpa using hl) hany' (fun i => idx (i + 1))
-        · intro i hi
-          have := hidx (i + 1) (by simpa using hi)
-          simpa [dimAt_cons_succ] using this
-        · rw [inBox_iff]
-          intro i hi
-          have := (inBox_iff _ _).1 hin (i + 1) (by simpa using hi)
-          simpa [selIdx, sliceAt_cons_succ] using this
-  | [], _ :: _, _, _, _, h, _, _, _, _, _, _ => by simp [NormalSub, allSlicesNormal] at h
-  | _ :: _, [], _, _, _, h, _, _, _, _, _, _ => by simp [NormalSub, allSlicesNormal] at h
-  | [], [], _ :: _, _, _, _, h, _, _, _, _, _ => by simp [boxOK] at h
-  | [], [], [], _ :: _, _, _, _, h, _, _, _, _ => by simp at h
-  | [], [], [], [], _ :: _, _, h, _, _, _, _, _ => by simp [boxOK] at h
-  | _ :: _, _ :: _, [], _, _, _, h, _, _, _, _, _ => by simp [boxOK] at h
-  | _ :: _, _ :: _, _ :: _, [], _, _, _, h, _, _, _, _ => by simp at h
-  | _ :: _, _ :: _, _ :: _, _ :: _, [], _, h, _, _, _, _, _ => by simp [boxOK] at h
+/-- per-axis facts for one block with reversed axes: as `block_axes`, with the mirrored block coordinate on those axes -/
+theorem block_axesR {sh csh : List Nat} {arr : List (Int × Int)} {rv : List Bool} {ts csub psub : List NSlice}
+    (hbox : boxOK sh arr csh = true) (hrl : rv.length = sh.length) (hts : NormalSub sh ts)
+    (ho : overlapsR ts arr rv = some (csub, psub)) :
+    csub.length = sh.length ∧ psub.length = sh.length ∧
+    (∃ cs0, overlaps ts arr = some (cs0, psub)) ∧
+    ∀ i, i < sh.length → ∃ k0 k1 : Int,
+      (sliceAt psub i).start = k0 ∧ (sliceAt psub i).stop = some k1 ∧ 0 ≤ k0 ∧ k0 < k1 ∧
+      k1 ≤ (sliceAt ts i).count ∧ (sliceAt csub i).Normal (dimAt csh i) ∧ ((sliceAt csub i).count : Int) = k1 - k0 ∧
+      (∀ k : Int, 0 ≤ k → k < (sliceAt ts i).count →
+        (((arr.getD i (0, 0)).1 ≤ (sliceAt ts i).start + k * (sliceAt ts i).step ∧
+          (sliceAt ts i).start + k * (sliceAt ts i).step < (arr.getD i (0, 0)).2) ↔ (k0 ≤ k ∧ k < k1))) ∧
+      (∀ k : Int, k0 ≤ k → k < k1 → (sliceAt csub i).start + (k - k0) * (sliceAt csub i).step =
+        if rv.getD i false then (arr.getD i (0, 0)).2 - 1 - ((sliceAt ts i).start + k * (sliceAt ts i).step)
+        else (sliceAt ts i).start + k * (sliceAt ts i).step - (arr.getD i (0, 0)).1) := by
+  obtain ⟨hal, hcl, hb⟩ := (boxOK_iff _ _ _).1 hbox
+  obtain ⟨htl, _⟩ := (normalSub_iff _ _).1 hts
+  have hs := overlapsR_spec ts arr rv (by omega) (by omega)
+  rw [ho] at hs
+  obtain ⟨cs0, e1, e2, e3⟩ := hs
+  obtain ⟨h1, h2, hax⟩ := block_axes hbox hts e1
+  refine ⟨by omega, h2, ⟨cs0, e1⟩, fun i hi => ?_⟩
+  obtain ⟨k0, k1, a1, a2, a3, a4, a5, a6, a7, a8, a9⟩ := hax i hi
+  obtain ⟨_, _, _, hc⟩ := hb i hi
+  rw [e3 i (by omega)]
+  by_cases hr : rv.getD i false = true
+  · simp only [hr, if_true]
+    have hL : ((dimAt csh i : Nat) : Int) = (arr.getD i (0, 0)).2 - (arr.getD i (0, 0)).1 := hc
+    rw [← hL]
+    obtain ⟨f1, f2, f3⟩ := flipSlice_spec a6 a1 a2 a7
+    refine ⟨k0, k1, a1, a2, a3, a4, a5, f1, by rw [f2]; exact a7, a8, ?_⟩
+    intro k hk0 hk1
+    rw [f3, a9 k hk0 hk1, hL]
+    ring
+  · have hr' : rv.getD i false = false := by simpa using hr
+    simp only [hr', Bool.false_eq_true, if_false]
+    exact ⟨k0, k1, a1, a2, a3, a4, a5, a6, a7, a8, a9⟩
+
+/-- one block with reversed axes: the part of the read that falls into the block is the block's image, mirrored on those axes -/
+theorem block_someR {α : Type} (out acc crd cfl : Arr α) {sh csh : List Nat} {arr : List (Int × Int)} {rv : List Bool}
+    {ts csub psub : List NSlice}
+    (hbox : boxOK sh arr csh = true) (hrl : rv.length = sh.length) (hts : NormalSub sh ts)
+    (ho : overlapsR ts arr rv = some (csub, psub))
+    (hcs : cfl.shape = csh) (hcloc : cfl.Local) (ihc : Arr.Equiv crd (cfl.select csub))
+    (idx : Idx) (hidx : InR (ts.map NSlice.count) idx) (hout : out.get idx = acc.get (selIdx ts idx)) :
+    (out.paste (sliceBox psub) crd).get idx = (acc.pasteR arr rv cfl).get (selIdx ts idx) := by
+  obtain ⟨hcl, hpl, _, hax⟩ := block_axesR hbox hrl hts ho
+  obtain ⟨hal, hcshl, _⟩ := (boxOK_iff _ _ _).1 hbox
+  have hk : ∀ i, i < sh.length → 0 ≤ idx i ∧ idx i < ((sliceAt ts i).count : Int) := by
+    intro i hi
+    have htl := ((normalSub_iff _ _).1 hts).1
+    have := hidx i (by simp; omega)
+    rwa [dimAt_map_count] at this
+  have hcond : inBox (sliceBox psub) idx = inBox arr (selIdx ts idx) := by
+    rw [Bool.eq_iff_iff, inBox_iff, inBox_iff]
+    simp only [sliceBox_length, hpl, hal]
+    constructor
+    · intro h i hi
+      obtain ⟨k0, k1, e1, e2, _, _, _, _, _, e8, _⟩ := hax i hi
+      have := h i hi
+      have hg := sliceBox_getD psub i (by omega)
+      rw [hg, e1, e2] at this
+      exact (e8 (idx i) (hk i hi).1 (hk i hi).2).2 (by simpa using this)
+    · intro h i hi
+      obtain ⟨k0, k1, e1, e2, _, _, _, _, _, e8, _⟩ := hax i hi
+      have := (e8 (idx i) (hk i hi).1 (hk i hi).2).1 (h i hi)
+      have hg := sliceBox_getD psub i (by omega)
+      rw [hg, e1, e2]
+      simpa using this
+  show (if inBox (sliceBox psub) idx then crd.get (boxLo (sliceBox psub) idx) else out.get idx) =
+    (if inBox arr (selIdx ts idx) then cfl.get (boxLoR arr rv (selIdx ts idx)) else acc.get (selIdx ts idx))
+  rw [hcond]
+  by_cases hin : inBox arr (selIdx ts idx) = true
+  · simp only [hin, if_true]
+    have hin' := hcond ▸ hin
+    rw [inBox_iff] at hin'
+    simp only [sliceBox_length, hpl] at hin'
+    have hloc : ∀ i, i < sh.length → ∃ k0 k1 : Int, (sliceBox psub).getD i (0, 0) = (k0, k1) ∧ k0 ≤ idx i ∧ idx i < k1 ∧
+        ((sliceAt csub i).count : Int) = k1 - k0 ∧
+        (sliceAt csub i).start + (idx i - k0) * (sliceAt csub i).step = boxLoR arr rv (selIdx ts idx) i := by
+      intro i hi
+      obtain ⟨k0, k1, e1, e2, _, _, _, _, e7, _, e9⟩ := hax i hi
+      have hg := sliceBox_getD psub i (by omega)
+      have := hin' i hi
+      rw [hg, e1, e2] at this
+      simp only [Option.getD_some] at this
+      refine ⟨k0, k1, by rw [hg, e1, e2]; rfl, this.1, this.2, e7, ?_⟩
+      rw [e9 _ this.1 this.2]
+      simp only [boxLoR, selIdx]
+    rw [ihc.2]
+    · show cfl.get _ = cfl.get _
+      apply hcloc
+      intro i hi
+      rw [hcs, hcshl] at hi
+      obtain ⟨k0, k1, hg, _, _, _, e⟩ := hloc i hi
+      simp only [selIdx, boxLo, hg]
+      exact e
+    · intro i hi
+      rw [ihc.1] at hi ⊢
+      simp only [Arr.select, List.length_map, hcl] at hi
+      obtain ⟨k0, k1, hg, h1, h2, e7, _⟩ := hloc i hi
+      simp only [Arr.select, dimAt_map_count, boxLo, hg]
+      omega
+  · simp only [hin, if_false]
+    exact hout
 
 theorem overlaps_none_inBox {sh csh : List Nat} {arr : List (Int × Int)} {ts : List NSlice}
     (hbox : boxOK sh arr csh = true) (hts : NormalSub sh ts) (ho : overlaps ts arr = none)
